@@ -1,7 +1,7 @@
 """C10 — SPARQL Update operations transform the dataset as SPARQL 1.1 Update defines.
 
 Generated update requests (1-4 operations: INSERT DATA, DELETE DATA, DELETE WHERE, DELETE/INSERT..WHERE with WITH / USING / GRAPH templates,
-CLEAR, DROP, ADD, MOVE, COPY) x generated datasets x 7 configurations (Graph, ConjunctiveGraph and Dataset(default_union on/off), each with
+CLEAR, DROP, ADD, MOVE, COPY) x generated datasets x 8 configurations (Graph, a subclass of Graph, ConjunctiveGraph and Dataset(default_union on/off), each with
 the engine switch SPARQL_DEFAULT_GRAPH_UNION on/off) are rendered to text for `.update()` and interpreted by an independent reference
 transformer over {graph name -> set of triples}. Compared: all quads in the store afterwards, up to renaming of blank nodes created by the
 request (blank nodes of the pre-state are fixed)."""
@@ -38,14 +38,18 @@ GNAMES = ["urn:g1", "urn:g2", "urn:g3"]  # g3 is never populated by the generato
 CONFIGS = ["graph", "cg", "ds", "ds-union"]
 
 
+class SubGraph(Graph):
+    """a user's subclass of Graph (config "graph-sub"): behaves as a Graph in every respect"""
+
+
 # ---------------------------------------------------------------- SUT side
 def build(case):
     cfg = case["config"]
     d = case["data"]
     with warnings.catch_warnings():
         warnings.simplefilter("ignore")
-        if cfg == "graph":
-            g = Graph()
+        if cfg in ("graph", "graph-sub"):
+            g = Graph() if cfg == "graph" else SubGraph()
             for t in d["default"]:
                 g.add(tuple(T(x) for x in t))
             return g
@@ -60,7 +64,7 @@ def build(case):
 
 def store_quads(target):
     """every (s, p, o, graph name) the store holds; the default graph's name is None"""
-    if type(target) is Graph:
+    if not isinstance(target, ConjunctiveGraph):
         return {(key(s), key(p), key(o), None) for s, p, o in target}
     default_id = target.default_context.identifier
     out = set()
@@ -318,7 +322,7 @@ def run(case):
                     c04.graph_var_over_values(pat) or c04.pushes_into_scoped_operator(pat) or c04.subselect_hides_shared_var(pat):
                 out.cls("c04-finding-class-skipped")
                 return out
-    if cfg == "graph" and any(needs_dataset(op) for op in ops):
+    if cfg in ("graph", "graph-sub") and any(needs_dataset(op) for op in ops):
         out.cls("invalid-shape")
         return out
     for kf, in_class in known_classes(case):
@@ -523,8 +527,8 @@ def operations(draw, data, dataset, by_name=False):
 
 @st.composite
 def cases(draw, tier):
-    cfg = draw(st.sampled_from(CONFIGS + ["ds", "cg"]))
-    dataset = cfg != "graph"
+    cfg = draw(st.sampled_from(CONFIGS + ["ds", "cg", "graph-sub"]))
+    dataset = cfg not in ("graph", "graph-sub")
     data = {"default": draw(gs.data_triples().map(lambda x: x[:6])), "g1": draw(gs.data_triples().map(lambda x: x[:5])) if dataset else [],
             "g2": draw(st.one_of(st.just([]), gs.data_triples().map(lambda x: x[:4]))) if dataset else []}
     if draw(st.integers(0, 3)) == 0:
